@@ -170,6 +170,52 @@ def check_value_aliasing(chk, lib):
     return n
 
 
+def check_overlapping_copies(chk, lib):
+    """ARR.overlap: `std::copy(first, last, d_first)` requires d_first outside [first, last).  Shifting elements to the
+    right inside one array (d_first = first + k) is an overlapping forward copy: it happens to work where the library
+    lowers it to memmove and duplicates the first k elements everywhere else (constant evaluation, non-trivial
+    iterators); the shift has to be a copy_backward / move_backward."""
+    n = 0
+    seen = set()
+    for f in lib.facts["functions"]:
+        if not f.get("file", "").endswith("sbepp.hpp") or f.get("body") is None:
+            continue
+        owner = f.get("cls_tpl") or f.get("cls") or ""
+        if "dynamic_array_ref" not in owner and "static_array_ref" not in owner:
+            continue
+        for x in walk(f["body"]):
+            c = x.get("callee") or {}
+            if c.get("name") not in ("copy", "move", "copy_n") or not (c.get("base") or "").startswith("std::") or len(x.get("args") or []) < 3:
+                continue
+            k = (f["name"], x.get("l"))
+            if k in seen:
+                continue
+            seen.add(k)
+            n += 1
+            a = x["args"]
+            src = gen_text_of(a[0])
+            dst_node = a[2]
+            while dst_node.get("k") in ("ImplicitCastExpr", "ParenExpr") and dst_node.get("sub") is not None:
+                dst_node = dst_node["sub"]
+            shifted = dst_node.get("k") in ("BinaryOperator", "CXXOperatorCallExpr") and dst_node.get("op") == "+" and \
+                src and src in (gen_text_of(dst_node.get("lhs") or (dst_node.get("args") or [None])[0]), gen_text_of(dst_node.get("rhs")))
+            key = "%s.%s|copy#%s" % (owner.split("::")[-1].split("<")[0], f["name"], x.get("l"))
+            if shifted:
+                chk.violation("ARR.overlap", "%s.%s|copy" % (owner.split("::")[-1].split("<")[0], f["name"]), where(f),
+                              "%s shifts elements to the right with std::%s(%s, ..., %s): the destination lies inside the source range "
+                              "(precondition of std::copy); in constant evaluation the first elements are duplicated instead of the "
+                              "tail being moved" % ((f.get("qn") or "")[:110], c.get("name"), src, gen_text_of(dst_node)))
+            else:
+                chk.ok("ARR.overlap", key, {"source": src, "destination": gen_text_of(dst_node)[:40]})
+    chk.ok("ARR.overlap", "scanned", {"forward copies in array references": n}, nontrivial=True)
+    return n
+
+
+def gen_text_of(n):
+    import gen
+    return gen.expr_text(n, 0, None) if isinstance(n, dict) else ""
+
+
 def check_string_length(chk, lib):
     """the constant-evaluation arm of detail::string_length (a hand-written strlen; the run-time arm calls std::strlen):
     count characters up to, not including, the first NUL"""
